@@ -1,62 +1,377 @@
-"""Property -> rules, explanation, assumptions, trusted base."""
+"""Property -> rules, explanation, assumptions, trusted base.
+
+Every claimed property is decided at level ``other``: static analysis of
+necessary structural conditions, on every path of the current source.  The
+explanation of each says which clauses are decided and which are not.
+"""
 
 COMMON_TRUST = [
     "CPython ast / re._parser (parsing only; nothing from /repo is imported "
     "or executed)",
-    "the checker's resolver (sa/resolve.py) incl. its table of public "
-    "signatures for unannotated entry-point parameters",
+    "the checker's resolver (sa/resolve.py: may-types, callee and "
+    "operator-protocol resolution) incl. its table of public signatures for "
+    "unannotated entry-point parameters",
+    "Python semantics of __slots__, functools.lru_cache, rich comparison "
+    "fallback",
 ]
+
+STATIC = ("static analysis: %s")
 
 PROPS = {}
 
-PROPS["C15"] = {
-    "rules": ["R04", "R05", "R06", "R07", "R30"],
-    "explanation": (
-        "Decides (structural, in full up to the listed assumptions): R04 "
-        "every memoised function that can read mode-dependent calendar "
-        "state, directly or through callees, has a parameter bound to the "
-        "live CALENDAR.mode at every resolved call site, and is reachable "
-        "under no other name; R05 Calendar.set_mode is the only writer of "
-        "the singleton, no mode-dependent value is read at import time "
-        "(module level, class body, decorator, default argument) or stored "
-        "into long-lived state; R06 set_mode assigns every derived "
-        "attribute on every path and reads none of them before assigning it "
-        "(post-state is a function of the argument alone, so histories "
-        "cannot matter); R07 the seven mode spellings fold through set_mode "
-        "to exactly the documented month/year lengths and the leap rule is "
-        "the 4/100/400 fold. Does not decide: numeric results of the "
-        "calendar helpers themselves (C03)."),
-    "assumptions": [
-        "no exec/eval/reflection on Calendar outside what is parsed",
-        "functools.lru_cache keys on all arguments",
-        "client code does not assign CALENDAR.* directly",
-    ],
-    "trusted": COMMON_TRUST + ["definition table MODE_DEF in "
-                               "sa/rules/calendar_mode.py (from the "
-                               "property text)"],
-}
 
-PROPS["C01"] = {"rules": ["R09", "R10", "R11", "R08", "R13c"], "explanation": "wip", "assumptions": [], "trusted": COMMON_TRUST}
-PROPS["C05"] = {"rules": ["R10", "R11", "R08", "R13c", "R13ab"], "explanation": "wip", "assumptions": [], "trusted": COMMON_TRUST}
-PROPS["C03"] = {"rules": ["R11", "R13ab"], "explanation": "wip", "assumptions": [], "trusted": COMMON_TRUST}
-PROPS["C06"] = {"rules": ["R09", "R10", "R11", "R08", "R13c", "R14", "R15", "R26"], "explanation": "wip", "assumptions": [], "trusted": COMMON_TRUST}
-PROPS["C09"] = {"rules": ["R10", "R11", "R31", "R20", "R21", "R22", "R33", "R17"], "explanation": "wip", "assumptions": [], "trusted": COMMON_TRUST}
-PROPS["C20"] = {"rules": ["R09", "R10", "R08", "R14", "R23"], "explanation": "wip", "assumptions": [], "trusted": COMMON_TRUST}
+def P(pid, rules, technique, decides, not_decided, assumptions=(),
+      trusted=()):
+    PROPS[pid] = {
+        "rules": rules,
+        "technique": technique,
+        "explanation": "Decides (necessary structural conditions, for every "
+        "input at once): " + decides + " Does not decide: " + not_decided,
+        "assumptions": list(assumptions),
+        "trusted": COMMON_TRUST + list(trusted),
+    }
 
-PROPS["C02"] = {"rules": ["R16", "R14", "R15", "R32", "R08"], "explanation": "wip", "assumptions": [], "trusted": COMMON_TRUST}
-PROPS["C11"] = {"rules": ["R16", "R17"], "explanation": "wip", "assumptions": [], "trusted": COMMON_TRUST}
-PROPS["C14"] = {"rules": ["R16", "R18", "R28"], "explanation": "wip", "assumptions": [], "trusted": COMMON_TRUST}
-PROPS["C16"] = {"rules": ["R01", "R02", "R03", "R17"], "explanation": "wip", "assumptions": [], "trusted": COMMON_TRUST}
 
-PROPS["C12"] = {"rules": ["R18", "R19"], "explanation": "wip", "assumptions": [], "trusted": COMMON_TRUST}
-PROPS["C13"] = {"rules": ["R19", "R18"], "explanation": "wip", "assumptions": [], "trusted": COMMON_TRUST}
+P("C01", ["R08", "R09", "R10", "R11", "R12", "R13c", "R17", "R07"],
+  "typestate abstract interpretation (dirty/clean fields), carry-loop "
+  "symbolic agreement, unit-of-measure inference",
+  "R08 in TimePoint.__add__ every incremented time/day field is followed by "
+  "the normaliser _tick_over() before the object is read by a converter or "
+  "returned, and p - d delegates to p + (-1*d); R09 each of the six "
+  "carry/borrow loops of _tick_over consumes exactly the length its guard "
+  "compared with (symbolic year offsets), blocks run smallest unit first; "
+  "R10/R11 every date field is bounded by its own length helper, computed "
+  "from the same object's year/month, with the leap table chosen iff the "
+  "year tested is leap; R12 every addition, comparison, store and keyword "
+  "in the second/minute/hour/day/week chain is dimensionally consistent "
+  "(169 obligations); R13c the result keeps the receiver's date "
+  "representation; R17 Duration.to_days/_get_non_nominal_seconds cover all "
+  "exact slots.",
+  "that the carried value is numerically the shifted instant (off-by-one "
+  "inside the day-of-month walk, float rounding of fractional units).",
+  ["24:00 receivers keep 24:00 on paths that apply no exact unit (required "
+   "by C08/C05); the range clause is read for results of a non-empty exact "
+   "shift"],
+  ["unit declarations of sa/rules/scale.py (slot -> unit, radix -> ratio), "
+   "printed with each obligation"])
 
-PROPS["C04"] = {"rules": ["R14", "R15", "R32", "R17", "R08"], "explanation": "wip", "assumptions": [], "trusted": COMMON_TRUST}
-PROPS["C19"] = {"rules": ["R32", "R20", "R30"], "explanation": "wip", "assumptions": [], "trusted": COMMON_TRUST}
+P("C02", ["R14", "R15", "R16", "R12", "R08"],
+  "def-use derivation of comparison-key operands, operator routing checks",
+  "R15 every operand whose date/time fields feed the lexicographic key of "
+  "_cmp, the hashed tuple of __hash__ and the field-wise difference of "
+  "__sub__ has passed a 24:00-normalising method (_roll_over_24, itself "
+  "verified: returns self only under hour != 24, else a ticked-over fresh "
+  "copy), on both operands; R14 the other operand is re-zoned to the "
+  "receiver's zone (hash: to UTC) before any field is read; R16 the five "
+  "rich comparisons route to one comparator with the operator name equal "
+  "to their own, _operator_map maps names to the operator functions of the "
+  "same name, operands are applied as (self-key, other-key), no __ne__ is "
+  "defined, the identical-operands shortcut is True exactly for eq/le/ge; "
+  "R12 get_second_of_day is dimensionally consistent.",
+  "transitivity/trichotomy over all values (follows only if the "
+  "conversions C01/C03 are right), float ties in the second-of-day.",
+  [], [])
 
-PROPS["C07"] = {"rules": ["R23", "R24", "R25", "R26"], "explanation": "wip", "assumptions": [], "trusted": COMMON_TRUST}
-PROPS["C08"] = {"rules": ["R23", "R24", "R14", "R26"], "explanation": "wip", "assumptions": [], "trusted": COMMON_TRUST}
+P("C03", ["R13ab", "R11", "R04", "R07", "R12"],
+  "structural slot-group and dispatch-matrix checks, leap-table polarity, "
+  "cache-key discipline",
+  "(thin) R13a each to_*_date fills exactly its own slot group from the "
+  "matching getter in the getter's tuple order and clears the other two; "
+  "R13b the 3x3 dispatch matrix of get_calendar/ordinal/week_date: every "
+  "cell returns own slots or calls get_<target>_date_from_<source>_date "
+  "with the source slots bound to the parameters of the same name; "
+  "composite converters are compositions with the tuple passed in order; "
+  "R11 the six leap-selected tables have the right polarity; R04 all "
+  "mode-dependent memoised helpers are keyed on the live mode; R07 the two "
+  "week-reference constants denote one January Monday and the leap rule is "
+  "the 4/100/400 fold.",
+  "that the day counts of the conversions are right and mutually inverse - "
+  "the property's main content is numeric; a runtime sweep over a 400-year "
+  "cycle is the right tool and is outside this family.",
+  [], ["definition table MODE_DEF (from the property text)"])
 
-PROPS["C10"] = {"rules": ["R27", "R26"], "explanation": "wip", "assumptions": [], "trusted": COMMON_TRUST}
-PROPS["C17"] = {"rules": ["R29", "R26", "R23", "R20", "R13d"], "explanation": "wip", "assumptions": [], "trusted": COMMON_TRUST}
-PROPS["C18"] = {"rules": ["R26", "R14", "R07"], "explanation": "wip", "assumptions": [], "trusted": COMMON_TRUST}
+P("C04", ["R12", "R14", "R15", "R32", "R17", "R08"],
+  "unit-of-measure inference, def-use derivation, order-agreement checks",
+  "R12 the Duration returned by TimePoint - TimePoint is built from "
+  "days/hours/minutes/seconds keywords only, each fed a value of that "
+  "unit; the borrow chain refills each component with its own radix and "
+  "decrements the next one up; R14 the subtrahend is re-zoned before its "
+  "fields are read; R15 both operands are 24:00-free (else 0<=h<24 fails); "
+  "R32 under `other > self` the result is -1*(other - self), and the "
+  "whole-year correction is += range(earlier, later-1) / mirrored.",
+  "exactness of the day count (closed-form leap counting in "
+  "get_days_in_year_range) and the round-trip identities.",
+  [], [])
+
+P("C05", ["R08", "R10", "R11", "R13c", "R13ab", "R09"],
+  "typestate abstract interpretation with clamp/wrap idioms, field/length "
+  "agreement",
+  "R08 in add_months every single month step is followed by the clamp "
+  "`if day > len: day = len` before the next step or exit, in __add__ each "
+  "of the three representation branches clamps its field after the year "
+  "changed, and the unit blocks are applied exact -> months -> years; R10 "
+  "each clamp compares and assigns the field against its own length, "
+  "computed from the *updated* year/month of the same object; R11 the month "
+  "length comes from the leap table iff the target year is leap; R13c "
+  "ordinal and week receivers come back in their own representation "
+  "(path-sensitive on was_ordinal_date/was_week_date).",
+  "that the month index arithmetic lands n months away (off-by-one in the "
+  "`> MONTHS_IN_YEAR` wrap).",
+  [], [])
+
+P("C06", ["R14", "R13c", "R08", "R09", "R10", "R11", "R12", "R15", "R22",
+          "R26", "R17"],
+  "structural conversion-path checks, typestate, sign-domain evaluation",
+  "R14 every converting path of to_time_zone shifts by (destination - own "
+  "offset) - orientation cross-checked against get_time_zone_offset - and "
+  "stores the requested zone in the result; the receiver is returned "
+  "unchanged only for an unknown destination; to_utc/to_local_time_zone "
+  "pass (0,0) / the local pair in order; in the dumper the conversion to "
+  "the format's literal zone precedes every property read and each literal "
+  "zone branch (Z, +.., -..) produces a custom zone; R13c representation "
+  "kept; R08/R09/R10 the shift is applied through __add__ and normalised by "
+  "_tick_over whose carries agree (day, year, week-year rollover); R26 the "
+  "sign is rendered from both zone components (evaluated over all sign "
+  "combinations) and both components are negated when parsing '-'; R22 "
+  "conflicting zone signs are refused.",
+  "'compares equal / zero difference' for all values (needs the arithmetic "
+  "of C01 and the comparison of C02).",
+  [], [])
+
+P("C07", ["R23", "R24", "R25", "R26", "R12"],
+  "constant folding / partial evaluation of the parser tables, regex-AST "
+  "shape intersection",
+  "R23 every translate row agrees with itself (one named group, capture "
+  "width = format width, placeholder = property, property readable) and "
+  "every key the tables can capture is a TimePoint keyword or is combined "
+  "into the year / rewritten before the constructor call; parser and "
+  "dumper use the same rows; R24 every expression of the three tables "
+  "folds (via the real substitution order) to a regex whose groups are "
+  "exactly the fields its tokens spell per the README token table, and in "
+  "every real search order (expanded digits 0-3 x basic-only x truncation "
+  "x excluded types/formats; thorough: 0-6) no earlier form's shape "
+  "intersects a later form that decodes differently; allow_only_basic "
+  "restricts to the basic tables; R25 basic dates exclude extended "
+  "times/zones and vice versa at every sibling matcher call; R26 both zone "
+  "components are negated under '-', the year sign is applied once after "
+  "all parts were summed; R12 the assumed/local zone pair reaches "
+  "time_zone_hour/minute in order.",
+  "per-value decoding (int()/float() of the matched text) and the "
+  "splitting heuristics of get_info on '+', '-', 'Z' for adversarial "
+  "mixtures.",
+  ["truncated-over-reduced overlaps inherent to ISO 8601:2000 (-YYMM vs "
+   "+-CCYY with 0 expanded digits) are noted, not findings: the property "
+   "gives truncated forms precedence when enabled"],
+  ["token -> field oracle transcribed from the README syntax tables (about "
+   "20 entries, sa/rules/tablerules.py)"])
+
+P("C08", ["R24", "R23", "R14", "R26"],
+  "path enumeration of the default dump format, folded table agreement",
+  "R24 each of the 24 strings _get_dump_format can return (4 time shapes x "
+  "2 zone shapes x 3 date tails, enumerated over its paths) is an extended "
+  "complete date expression followed by an extended time and zone "
+  "expression the parser lists, and the year is padded to 4 + "
+  "num_expanded_year_digits digits; R23 every property the dumper reads "
+  "exists and is rendered with the width the reader captures; R26 "
+  "time_zone_sign reads both components (the -00:30 case) and no signed "
+  "property is written through an unsigned reader; R14 explicit-zone "
+  "formats convert before formatting.",
+  "equality after the 6-digit float truncation; custom formats in general.",
+  [], [])
+
+P("C09", ["R20", "R21", "R22", "R10", "R11", "R23", "R31", "R33", "R12"],
+  "call-graph reachability of raise sites, must-pass-through analysis, "
+  "bound-kind checks, regex star height",
+  "R21 with both bypass flags off every exit of TimePoint.__init__ has "
+  "passed _check_bounds() after the last field store; the bypass flags have "
+  "one named user each and are forwarded unchanged; R22 all eight "
+  "date/time fields are checked on every path, 1-based fields inclusively "
+  "against their length, minute/second exclusively, 24:xx only as "
+  "24:00:00, decimals in [0,1), zone sign conflicts refused, and "
+  "_bounds_checker itself has inclusive-max/exclusive-upper semantics; "
+  "R10/R11 each field is bounded by its own length with the object's own "
+  "year and the right leap table; R20 every explicit raise reachable from "
+  "the three parsers and the four constructors is ValueError-derived (or an "
+  "operand-type guard that no in-package caller can trigger), broad "
+  "handlers re-raise library errors, the six library error classes derive "
+  "from ValueError; R31 no compiled regex nests unbounded repeats and the "
+  "parser modules contain no while loop.",
+  "exceptions raised implicitly by builtins on arbitrary text (KeyError, "
+  "IndexError, TypeError from **info; R23's producer/consumer clause "
+  "removes the main source) and the acceptance side beyond the bound "
+  "kinds.",
+  ["OverflowError/RuntimeError in TimePoint._get_dump_format are exempted "
+   "by name: reachable only through error-message formatting of an already "
+   "constructed point"], [])
+
+P("C10", ["R27", "R26", "R12"],
+  "folded writer list vs regex-AST reader sequence",
+  "(thin) R27 the designator sequence Duration.__str__ emits (Y M D T H M "
+  "S; W alone) equals, unit for unit and in order, the (group, literal) "
+  "sequence of the duration regexes; units parsed with int() = groups "
+  "matching \\d+ = integer-typed constructor arguments; the decimal comma "
+  "and the leading '-' are consumed by the reader; the empty duration's "
+  "spelling matches a regex; the date-time-like spelling maps each field "
+  "to the unit of the same name and refuses week dates; R26 the sign factor "
+  "multiplies every captured unit.",
+  "float -> str -> float fidelity, exponent notation.", [], [])
+
+P("C11", ["R16", "R17", "R12", "R07"],
+  "projection-set comparison of eq/hash/ordering, slot-coverage checks, "
+  "unit inference",
+  "R16 Duration.__eq__, __hash__ and the four orderings read exact units "
+  "only through the canonical projections, hash projections are a subset "
+  "of equality projections, week form and unit form hash the same tuple "
+  "shape, each ordering applies its own operator to the same projection of "
+  "(self, other); R17 __add__/__floordiv__ update all six unit slots slot "
+  "to slot plus the week form, __mul__/__abs__/__bool__ iterate __slots__, "
+  "__sub__/__rmul__ delegate; R12 both projections are dimensionally "
+  "consistent incl. the rough year/month factors; R07 radices 60/60/24/7 "
+  "and a month of 30 days.",
+  "associativity/identity laws over float components.", [], [])
+
+P("C12", ["R18", "R19"],
+  "finite-domain abstract interpretation of the recurrence constructor and "
+  "__iter__",
+  "R18 for each of the 13 reachable abstract post-states of the "
+  "constructor (anchors None/Given/Derived x repetitions x interval "
+  "zero/exact/maybe-nominal x notation): iteration starts at the given "
+  "anchor (or an equivalent derived one when the interval is exact), walks "
+  "in the direction the anchors dictate using get_next/get_prev "
+  "accordingly, a single-point recurrence yields its anchor once, and a "
+  "bounded walk with a possibly nominal interval is not cut by a derived "
+  "bound; R19 neighbours are exactly one interval away.",
+  "counts and values for concrete series.",
+  ["two known findings (K1, K2) are reported as KNOWN-FINDING lines"], [])
+
+P("C13", ["R19"],
+  "abstract interpretation of guard status of returned points",
+  "R19 every time point computed by arithmetic and returned by get_next, "
+  "get_prev or get_first_after has passed self._get_is_in_bounds on that "
+  "path (anchors and None need no guard); get_is_valid and __getitem__ "
+  "obtain their points only from iteration of the recurrence, membership is "
+  "equality with an iterated point, and the two early exits test the "
+  "direction __iter__ walks under the same guard; neighbours move by one "
+  "interval and are None for single points.",
+  "that the closed form of get_first_after (divmod of second counts) lands "
+  "on the earliest later member.", [], [])
+
+P("C14", ["R18", "R16", "R28"],
+  "abstract interpretation of __add__ re-entering the constructor, "
+  "projection-set comparison",
+  "R18 for every reachable state r + d rebuilds the recurrence through the "
+  "constructor with every anchor of r shifted (none lost, none passed "
+  "unshifted), the same repetitions and interval, min/max passed on; r - d "
+  "delegates; R16 __eq__ compares every constructor-given component "
+  "(incl. the interval) and __hash__ projects a subset of them; R28 "
+  "__str__ writes each notation in the component order a recurrence regex "
+  "reads, and regex groups reach the constructor keyword of the same "
+  "meaning.",
+  "(r + d) - d == r and identical iteration over values.", [], [])
+
+P("C15", ["R04", "R05", "R06", "R07", "R30", "R03", "R12"],
+  "call-graph closure of mode reads, must-assign analysis, partial "
+  "evaluation of set_mode over the finite mode table",
+  "(structural, in full up to the assumptions) R04 every memoised function "
+  "that can read mode-dependent calendar state, directly or through "
+  "callees, has a parameter bound to the live CALENDAR.mode at every "
+  "resolved call site, and is reachable under no other name; R05 "
+  "Calendar.set_mode is the only writer of the singleton, no "
+  "mode-dependent value is bound at import time (module level, class body, "
+  "decorator, default argument) or stored into long-lived state; R06 "
+  "set_mode assigns every derived attribute on every path and reads none of "
+  "them before assigning it (the post-state is a function of the argument "
+  "alone, so histories cannot matter); R07 the seven mode spellings fold "
+  "through set_mode to exactly the documented month/year lengths and "
+  "derived constants, the leap rule is the 4/100/400 fold; R30 the CLI "
+  "option / environment variable reach set_mode before any parser is "
+  "built and the option's choices are valid keys.",
+  "numeric results of the calendar helpers themselves (C03).",
+  ["no exec/eval/reflection on Calendar outside what is parsed",
+   "functools.lru_cache keys on all arguments",
+   "client code does not assign CALENDAR.* directly"],
+  ["definition table MODE_DEF in sa/rules/calendar_mode.py (from the "
+   "property text)"])
+
+P("C16", ["R01", "R02", "R03", "R17", "R21"],
+  "flow-sensitive ownership (fresh/receiver/param/shared) abstract "
+  "interpretation with inter-procedural summaries",
+  "(structural, in full up to the assumptions) R01 every store to a slot "
+  "of a TimePoint/Duration/TimeZone/TimeRecurrence (194 sites incl. "
+  "setattr loops) targets the object under construction, an object that is "
+  "Fresh on every path (constructor, _copy, or a callee whose summary "
+  "returns Fresh for a Fresh receiver), or self inside a private in-place "
+  "normaliser; stores from other modules are refused; R02 the in-place "
+  "normalisers (computed: _tick_over, _tick_over_day_of_month) are "
+  "private and only invoked on Fresh receivers; no in-place dunders, no "
+  "property setters, __slots__ declared; R03 memoised containers are only "
+  "read, module/class-level state is written only at two named memo sites, "
+  "no mutable defaults, value slots hold no containers; R17 copies cover "
+  "all slots and give the copy its own zone object.",
+  "nothing further (whole-program structural property).",
+  ["client code does not write underscore attributes; no "
+   "object.__setattr__/ctypes tricks (checked absent in the package)"], [])
+
+P("C17", ["R29", "R13d", "R26", "R23", "R20", "R12"],
+  "folded directive table vs POSIX meaning, representation abstract "
+  "interpretation of strftime",
+  "R29 the directive table holds exactly the supported set, each directive "
+  "expands to the properties POSIX prescribes, %F/%X equal their parts, an "
+  "unknown directive raises the ValueError-derived StrftimeSyntaxError "
+  "before any output, both directions split formats with the same regex "
+  "and strptime applies the assumed zone; R13d for calendar, ordinal and "
+  "week receivers strftime reads the year properties from a non-week form "
+  "(the table has no week directive); R26 every signed value a directive "
+  "prints (%s) has a reader that admits the sign; R23 the same rows drive "
+  "templates and regexes (widths agree); R20 raises reachable from "
+  "strftime/strptime are ValueError-derived.",
+  "character-level equality with libc strftime output.", [], [])
+
+P("C18", ["R26", "R12", "R14", "R07"],
+  "def-use dependence on the offset sign, unit inference with literal "
+  "divisors",
+  "(thin) R26 both components returned by get_local_time_zone are computed "
+  "through the sign of the offset (the floor-vs-truncate regression of "
+  "#193) and the format's '-' is chosen from both components; R12 the "
+  "literal divisors 60/3600 yield (hours, minutes) from seconds, and that "
+  "pair keeps its order through every consumer (TimeZone(hours=,minutes=), "
+  "time_zone_hour/minute, the {hh}{mm} templates); Unix time is days * "
+  "seconds-per-day + seconds of (self - epoch); R07 the epoch constants "
+  "are 1970 at (0,0); R14 to_local_time_zone passes the pair in order.",
+  "results for actual system zone configurations (read from time.* at run "
+  "time).", [], [])
+
+P("C19", ["R30", "R20", "R32", "R12"],
+  "structural try/handler and option-plumbing checks, call-graph "
+  "reachability",
+  "R30 all four dispatch calls (for the recurrence generator: its loop) "
+  "lie inside `try ... except ValueError: sys.exit(exc)`, every argparse "
+  "destination is consumed and each DateTimeOperator keyword receives the "
+  "option of the same meaning, --calendar / --as-total choices are valid "
+  "downstream, set_calendar_mode runs unconditionally before parsers are "
+  "built, the -P escape is undone at every consumer, the parsed expression "
+  "is kept as print format, recurrence output is the first N items in "
+  "order; R20 every raise reachable under the dispatch is ValueError-"
+  "derived; R32 the printed sign and the operand order of the difference "
+  "agree; R12 --as-total divides seconds by 60/3600.",
+  "the text printed for all argument vectors; argparse behaviour.",
+  ["an invalid ISODATETIMECALENDAR raises KeyError in the constructor, "
+   "outside the handler (an environment variable, not an argument) - noted"],
+  [])
+
+P("C20", ["R08", "R14", "R09", "R10", "R12", "R23", "R13c"],
+  "typestate abstract interpretation of the search loops",
+  "(thin) R08 in each of the seven in-scope search loops of add_truncated "
+  "the incremented field is normalised by _tick_over() before the loop "
+  "condition re-tests it (so every intermediate and the result are valid "
+  "dates - also necessary for termination); R14 the search runs on the full "
+  "operand re-expressed in the truncated operand's zone and the result is "
+  "converted back to the full operand's zone, the commuted order "
+  "delegates; R09/R10 the normaliser's carries agree; R23 every truncated "
+  "year-part key is in the parser's year-presence list.",
+  "earliest match, idempotence and termination (they depend on which values "
+  "the cyclic fields can take).",
+  ["-W53 + p does not terminate in the 360-day calendar (MAX_WEEKS_IN_YEAR "
+   "is not mode-derived): outside the property's quantifier, noted"], [])
+
+NOT_APPLICABLE = {}
